@@ -157,66 +157,89 @@ def pathAliases : List (List Bytes) → Option (List (Bytes × Bytes))
       | _, _, _ => none
     | _ => none        -- `m_recordItems.at(index)` throws
 
-/-- the keyword loop. `recog`: `Parser::isRecognizedKeyword`; `files`: path aliases (PATHS) and
-INCLUDE path → content (`getIncludeFilePath` + `loadFile`; `$NAME` substitution and file
-lookup are a parameter). -/
+/-- what one round of the keyword loop asks for: stop with a result, or go on from a new
+state (aliases, deck so far, lines still to be read). -/
+inductive Next where
+  | done (r : Option DeckT)
+  | goto (al : List (Bytes × Bytes)) (deck : DeckT) (lines : List Bytes)
+
+/-- the raw keyword for a keyword line and the lines left behind it: finished at creation
+(size 0), TITLE (`is_title`), or the record loop `feedLines`. -/
+def keywordRes (recog : Bytes → Bool) (dn : Bytes) (k0 : Kw) (rest : List Bytes) : Option (Kw × List Bytes) :=
+  if k0.finished then some (k0, rest)
+  else if dn == nameTITLE then
+    match titleNext false rest with
+    | none => none
+    | some (l, rest') =>
+      match titleRecord l with
+      | none => none
+      | some toks => some (k0.addRecord toks, rest')
+  else feedLines recog k0 [] [] rest
+
+/-- what `parseState` does with a raw keyword: END, ENDINC, PATHS, INCLUDE, or
+`ParserKeyword::parse` and `deck.addKeyword`. -/
+def dispatch (cv : Conv) (files : List (Bytes × Bytes) → Bytes → Option Bytes)
+    (al : List (Bytes × Bytes)) (deck : DeckT) (name : Bytes) (d : KwDef) (k : Kw) (rest' : List Bytes) : Next :=
+  if !k.finished then .done none
+  else if name == nameEND then .done (some deck)
+  else if name == nameENDINC then .goto al deck (dropFile rest')
+  else if name == namePATHS then
+    match pathAliases k.records with
+    | none => .done none
+    | some more => .goto (al ++ more) deck rest'
+  else if name == nameINCLUDE then
+    match k.records with
+    | (tok :: _) :: _ =>
+      match readString tok with
+      | none => .done none
+      | some path =>
+        match files al path with
+        | none => .done none
+        | some content => .goto al deck (splitLines (fastClean (content ++ [10])) ++ eofMark :: rest')
+    | _ => .done none
+  else
+    match (if d.dbl then parseRecordsDouble cv d.schemas d.alt 0 k.records
+           else parseRecords cv d.schemas d.alt 0 k.records) with
+    | none => .done none
+    | some rs => .goto al (deck ++ [⟨name, rs⟩]) rest'
+
+/-- one round of the keyword loop `parseState` (`tryParseKeyword` + the dispatch behind it).
+`recog`: `Parser::isRecognizedKeyword`; `files`: path aliases (PATHS) and INCLUDE path →
+content (`getIncludeFilePath` + `loadFile`; `$NAME` substitution and file lookup are a
+parameter). -/
+def parseStep (cv : Conv) (tbl : Table) (recog : Bytes → Bool)
+    (files : List (Bytes × Bytes) → Bytes → Option Bytes) :
+    List (Bytes × Bytes) → DeckT → List Bytes → Next
+  | _, deck, [] => .done (some deck)
+  | al, deck, line :: rest =>
+    if line.isEmpty then .goto al deck rest
+    else if line = eofMark then .goto al deck rest
+    else
+      let dn := makeDeckName line
+      if isSkipName dn then .goto al deck (dropSkip rest)
+      else if dn == nameENDSKIP then .goto al deck rest
+      else if !validDeckName dn then .done none
+      else
+        match findKw tbl dn with
+        | none => .done none
+        | some (name, d) =>
+          match newRaw d deck with
+          | none => .done none
+          | some k0 =>
+            match keywordRes recog dn k0 rest with
+            | none => .done none
+            | some (k, rest') => dispatch cv files al deck name d k rest'
+
+/-- the keyword loop: rounds until the input is used up (or END, or an error); `fuel`
+bounds the number of rounds (only a file that includes itself needs unboundedly many). -/
 def parseLoop (cv : Conv) (tbl : Table) (recog : Bytes → Bool)
     (files : List (Bytes × Bytes) → Bytes → Option Bytes) :
     Nat → List (Bytes × Bytes) → DeckT → List Bytes → Option DeckT
   | 0, _, _, _ => none
-  | _ + 1, _, deck, [] => some deck
-  | fuel + 1, al, deck, line :: rest =>
-    if line.isEmpty then parseLoop cv tbl recog files fuel al deck rest
-    else if line = eofMark then parseLoop cv tbl recog files fuel al deck rest
-    else
-      let dn := makeDeckName line
-      if isSkipName dn then parseLoop cv tbl recog files fuel al deck (dropSkip rest)
-      else if dn == nameENDSKIP then parseLoop cv tbl recog files fuel al deck rest
-      else if !validDeckName dn then none
-      else
-        match findKw tbl dn with
-        | none => none
-        | some (name, d) =>
-          match newRaw d deck with
-          | none => none
-          | some k0 =>
-            let res : Option (Kw × List Bytes) :=
-              if k0.finished then some (k0, rest)
-              else if dn == nameTITLE then
-                match titleNext false rest with
-                | none => none
-                | some (l, rest') =>
-                  match titleRecord l with
-                  | none => none
-                  | some toks => some (k0.addRecord toks, rest')
-              else feedLines recog k0 [] [] rest
-            match res with
-            | none => none
-            | some (k, rest') =>
-              if !k.finished then none
-              else if name == nameEND then some deck
-              else if name == nameENDINC then parseLoop cv tbl recog files fuel al deck (dropFile rest')
-              else if name == namePATHS then
-                match pathAliases k.records with
-                | none => none
-                | some more => parseLoop cv tbl recog files fuel (al ++ more) deck rest'
-              else if name == nameINCLUDE then
-                match k.records with
-                | (tok :: _) :: _ =>
-                  match readString tok with
-                  | none => none
-                  | some path =>
-                    match files al path with
-                    | none => none
-                    | some content =>
-                      parseLoop cv tbl recog files fuel al deck
-                        (splitLines (fastClean (content ++ [10])) ++ eofMark :: rest')
-                | _ => none
-              else
-                match (if d.dbl then parseRecordsDouble cv d.schemas d.alt 0 k.records
-                       else parseRecords cv d.schemas d.alt 0 k.records) with
-                | none => none
-                | some rs => parseLoop cv tbl recog files fuel al (deck ++ [⟨name, rs⟩]) rest'
+  | fuel + 1, al, deck, lines =>
+    match parseStep cv tbl recog files al deck lines with
+    | .done r => r
+    | .goto al' deck' lines' => parseLoop cv tbl recog files fuel al' deck' lines'
 
 /-- `Parser::parseString`. -/
 def parseDeckText (cv : Conv) (tbl : Table) (recog : Bytes → Bool)
